@@ -317,6 +317,18 @@ Proof.
     destruct qu0 as [n0 t0 c0], qu as [n1 t1 c1]. cbn in En, Et, Ec. subst. reflexivity.
 Qed.
 
+(** Whatever the store holds under a key answers a query with that key — after
+    any history; a lazy (background) update is the step [Query q r r] for the
+    query [q] the update was started for. *)
+Theorem held_entry_answers_its_key h k v :
+  lookup k (final h) = Some v ->
+  exists q om oh, In (Query q om oh) h /\ msg_key q = Some k /\ answers_question v q = true.
+Proof.
+  intro L. apply lookup_in in L. apply (final_inv h) in L.
+  destruct L as (q & om & oh & Hin & K & _ & A & _). cbn [fst snd] in *.
+  exists q, om, oh. auto.
+Qed.
+
 (** The same for the outcome recorded at any position of any run. *)
 Theorem run_hits_only_same_question h1 q om oh h2 v :
   Forall wf_op (h1 ++ Query q om oh :: h2) ->
